@@ -9,11 +9,12 @@ import LsModel.DriverName
 import LsModel.DriverSweep
 import LsModel.DriverLoop
 import LsModel.DriverWire
+import LsModel.DriverConc
 /- lsdriver: one operation per input line, exactly one canonical output line per operation. -/
 open Ls.Drv
 
 /-- stateless operations -/
-def handlers : List (String → List String → Option String) := [opHeader, opMerge, opC02, opStrat, opDup, opCfg, opName, opWire]
+def handlers : List (String → List String → Option String) := [opHeader, opMerge, opC02, opStrat, opDup, opCfg, opName, opWire, opConc]
 
 /-- operations that read or update the driver state -/
 def statefulHandlers : List (String → List String → DrvState → Option (DrvState × String)) := [opTxn, opSweep, opLoop, opCleaner]
